@@ -5,6 +5,7 @@ CONSTANTS
   MaxRestarts = 0
   MaxFlight = 3
   MaxTimers = 0
+  Chunk = 0
 VIEW View
 INVARIANTS C05_Safety C05_Completion
 CHECK_DEADLOCK FALSE
